@@ -86,7 +86,10 @@ class SplitKernelOb(Obligation):
         KINDS = ["empty", "semicolon", "stmt", "comment_semicolon", "comment_stmt"]
         kinds = [KINDS[fork_choice("kind%d" % i, len(KINDS))] for i in range(self.n)]
         text = {"semicolon": ";", "empty": "-- c;", "comment_semicolon": "/* c */ ;"}
-        pieces = [_Stmt(k, SymStr.var("txt%d" % i, 3, "qz;'- ") if k in ("stmt", "comment_stmt") else SymStr.const(text[k])) for i, k in enumerate(kinds)]
+        # a piece's text agrees with its tokens: a statement piece starts with its first token (after its comment, if any), the
+        # rest of its text is free (so a ';' inside a literal or a trailing comment, blanks, quotes are solver cases)
+        lead = {"stmt": "SELECT", "comment_stmt": "/* c */ SELECT"}
+        pieces = [_Stmt(k, (SymStr.const(lead[k]) + SymStr.var("txt%d" % i, 3, "qz;'- ")) if k in lead else SymStr.const(text[k])) for i, k in enumerate(kinds)]
         real_parse = sqlparse.parse
         sqlparse.parse = lambda sql, *a, **k: list(pieces)
         try:
